@@ -153,4 +153,32 @@ theorem landuse_roundtrip (cells : Nat) (f : Landuse.LFile) (h : Landuse.WF cell
   rw [Landuse.read_write cells f h] at hg
   cases hg; rfl
 
+/-- **C08 (wind files).** Reading any well-formed wind file (any number of steps, layers, either header variant) gives
+its content, and writing what was read gives the same bytes. -/
+theorem wind_roundtrip (cells nz h : Nat) (steps : List Wind.WStep) (w : Wind.WFw cells nz h steps) :
+    Wind.read cells (Wind.encode steps) = some steps ∧
+    ∀ g, Wind.read cells (Wind.encode steps) = some g → Wind.encode g = Wind.encode steps := by
+  refine ⟨Wind.read_encode cells nz h steps w, ?_⟩
+  intro g hg
+  rw [Wind.read_encode cells nz h steps w] at hg
+  cases hg; rfl
+
+/-- **C08 (cloud/rain files).** -/
+theorem cloud_rain_roundtrip (nv : Nat) (f : CloudRain.CFile) (w : CloudRain.WFc nv f) :
+    CloudRain.read (CloudRain.encode f) = some f ∧
+    ∀ g, CloudRain.read (CloudRain.encode f) = some g → CloudRain.encode g = CloudRain.encode f := by
+  refine ⟨CloudRain.read_encode nv f w, ?_⟩
+  intro g hg
+  rw [CloudRain.read_encode nv f w] at hg
+  cases hg; rfl
+
+/-- **C08 (lateral boundary files).** -/
+theorem boundary_roundtrip (nspec nx ny nz : Nat) (f : Boundary.BFile) (w : Boundary.WFb nspec nx ny nz f) :
+    Boundary.read (Boundary.encode f) = some f ∧
+    ∀ g, Boundary.read (Boundary.encode f) = some g → Boundary.encode g = Boundary.encode f := by
+  refine ⟨Boundary.read_encode nspec nx ny nz f w, ?_⟩
+  intro g hg
+  rw [Boundary.read_encode nspec nx ny nz f w] at hg
+  cases hg; rfl
+
 end Props.C08
